@@ -121,10 +121,15 @@ def isReg (name : String) (idx : Nat) : RNode → Bool
   | .reg n i => n == name && i == idx
   | _ => false
 
+/-- the callee of a call is the identifier `eval` -/
+def isEvalIdent : RNode → Bool
+  | .ident n => n == "eval"
+  | _ => false
+
 /-- `ModifyRegister(register, in)` on a node whose children are already rewritten; `none` = `(nil, false)`.
 The six refusals of the callback, in the order of the Go switch (the seventh refusal, a rewritten
 parameter of a function or macro literal, is in `ast.Modify` itself: see `modifyR`):
-`x++`/`x--`, `x = …`/`x := …`, `m.x`, `++x`/`--x`, `del(x)`, any function literal. -/
+`x++`/`x--`, `x = …`/`x := …`, `m.x`, `++x`/`--x`, `del(x)`, any `quote(…)`, a direct call of `eval`, any function literal. -/
 def cb (name : String) (idx : Nat) : RNode → Option RNode
   | .ident n => if n == name then some (.reg name idx) else some (.ident n)
   | .post op p => if p == name then none else some (.post op p)
@@ -132,7 +137,14 @@ def cb (name : String) (idx : Nat) : RNode → Option RNode
     if (op == "ASSIGN" || op == "DEFINE") && isReg name idx l then none else some (.inf op l r)
   | .idx tok l i => if tok == "DOT" && isReg name idx i then none else some (.idx tok l i)
   | .pre op r => if (op == "INCR" || op == "DECR") && isReg name idx r then none else some (.pre op r)
-  | .builtin t [p] => if t == "DEL" && isReg name idx p then none else some (.builtin t [p])
+  -- `quote(…)` keeps its tree as written (repo fix 3rd review: a register inside printed as R[0,x])
+  | .builtin t ps =>
+    if t == "QUOTE" then none
+    else match ps with
+      | [p] => if t == "DEL" && isReg name idx p then none else some (.builtin t [p])
+      | _ => some (.builtin t ps)
+  -- a direct call of `eval` looks variables up by name in the environment
+  | .call f as => if isEvalIdent f then none else some (.call f as)
   | .fn .. => none
   | n => some n
 
@@ -237,7 +249,7 @@ def isVar (name : String) (idx : Nat) : RNode → Bool
 mutual
 /-- the body cannot use a register for `name`: it contains a function literal; `name++`/`name--`;
 `name = …`/`name := …` (also as the variable of an inner `for name = …`); `++name`/`--name`; `….name` (the
-name as a field); `del(name)`; or a macro literal with a parameter `name` -/
+name as a field); `del(name)`; a `quote(…)`; a direct call `eval(…)`; or a macro literal with a parameter `name` -/
 def refuses (name : String) (idx : Nat) : RNode → Bool
   | .fn .. => true
   | .post _ p => p == name
@@ -246,7 +258,7 @@ def refuses (name : String) (idx : Nat) : RNode → Bool
   | .idx tok l i => (tok == "DOT" && isVar name idx i) || refuses name idx l || refuses name idx i
   | .pre op r => ((op == "INCR" || op == "DECR") && isVar name idx r) || refuses name idx r
   | .builtin t ps =>
-    (match ps with
+    t == "QUOTE" || (match ps with
      | [p] => t == "DEL" && isVar name idx p
      | _ => false) || refusesList name idx ps
   | .macroLit ps body => ps.contains name || refuses name idx body
@@ -254,7 +266,7 @@ def refuses (name : String) (idx : Nat) : RNode → Bool
   | .ifE c a b => refuses name idx c || refuses name idx a || refuses name idx b
   | .forE c b => refuses name idx c || refuses name idx b
   | .ret v => refuses name idx v
-  | .call f as => refuses name idx f || refusesList name idx as
+  | .call f as => (isEvalIdent f && name != "eval") || refuses name idx f || refusesList name idx as
   | .arr els => refusesList name idx els
   | .mapLit ks vs => refusesList name idx ks || refusesList name idx vs
   | .ident _ | .int _ | .float _ | .str _ | .bool _ | .none | .ctl _ | .comment | .reg .. => false
